@@ -413,7 +413,7 @@ def check(pid, tier, seed, replay=None):
         cases, monitors, stats, notes, errs = run_components(pid, spec, tier, seed, wd, replay_file)
         # components >= 1000 are recorded histories of real clusters: checked by the property
         # monitors only (no model replay)
-        mcases = [c for c in cases if int(c[1]) < 1000]
+        mcases = [c for c in cases if not (1000 <= int(c[1]) < 1100)]
         if drv_rc == 0 and mcases:
             model_out = run_model(mcases, wd)
             for tag, comp, ins, obs, nt in mcases:
@@ -503,8 +503,8 @@ def check(pid, tier, seed, replay=None):
             evaluations=len(cases), distinct_nontrivial=distinct_nt,
             rule=spec.get('rule', ''),
             samples=samples,
-            traces_validated_against_impl=len([c for c in cases if int(c[1]) < 1000]) - len(mismatches) if model_out else 0,
-            cluster_histories_monitored=len([c for c in cases if int(c[1]) >= 1000]),
+            traces_validated_against_impl=len([c for c in cases if not (1000 <= int(c[1]) < 1100)]) - len(mismatches) if model_out else 0,
+            cluster_histories_monitored=len([c for c in cases if 1000 <= int(c[1]) < 1100]),
             model_impl_mismatches=len(mismatches),
             in_coq_crosscheck=dict(cases=cross_n, mismatches=len(cross_bad)),
             monitor_alarms=len(mine), known_findings=sorted(seen_known),
